@@ -135,10 +135,10 @@ Fixpoint pp_stmt (s : stmt) : list tok :=
       tpl SCall "match ( $0 ) . as_slice ( ) { [ $1 ] => { $2 } _ => { $3 } }"
           [pp_vexpr e; sep_by (comma SCall) (map pp_part parts); flat_map pp_stmt body; pp_push p]
   | SRegex sp e pattern p =>
-      tpl sp "{ use :: assert_struct :: Like ; let __assert_struct_re = :: assert_struct :: __macro_support :: Regex :: new ( $0 ) . expect ( concat ! ( $1 , $0 ) ) ; if ! ( $2 ) . like ( & __assert_struct_re ) { $3 } }"
+      tpl sp "{ use :: assert_struct :: Like as _ ; let __assert_struct_re = :: assert_struct :: __macro_support :: Regex :: new ( $0 ) . expect ( concat ! ( $1 , $0 ) ) ; if ! ( $2 ) . like ( & __assert_struct_re ) { $3 } }"
           [str_lit pattern SCall; str_lit "Invalid regex pattern: " sp; pp_vexpr e; pp_push p]
   | SLike sp e x p =>
-      tpl sp "{ use :: assert_struct :: Like ; if ! ( $0 ) . like ( & $1 ) { $2 } }" [pp_vexpr e; u_toks x; pp_push p]
+      tpl sp "{ use :: assert_struct :: Like as _ ; if ! ( $0 ) . like ( & $1 ) { $2 } }" [pp_vexpr e; u_toks x; pp_push p]
   | SClosure sp e c p =>
       tpl sp "{ if ! :: assert_struct :: __macro_support :: check_closure_condition ( $0 , $1 ) { $2 } }"
           [pp_vexpr e; u_toks c; pp_push p]
@@ -225,5 +225,5 @@ Definition ALLOW_LIST : string :=
 Definition expand_top (join_ok : bool) (value : list tok) (p : pat) : list tok :=
   let nodes := gen_nodes join_ok p None in
   let assertion := pp_stmt (expand join_ok p (VRoot value)) in
-  tpl SCall ("{ # [ allow ( " ++ ALLOW_LIST ++ " ) ] let __assert_struct_result = { use std :: convert :: AsRef ; $0 const __PATTERN_TREE : & " ++ MS ++ " PatternNode = & $1 ; let mut __report = " ++ MS ++ " ErrorReport :: new ( :: std :: env ! ( ""CARGO_MANIFEST_DIR"" ) , :: std :: file ! ( ) , ) ; $2 if ! __report . is_empty ( ) { panic ! ( ""{}"" , __report ) ; } } ; __assert_struct_result }")
+  tpl SCall ("{ # [ allow ( " ++ ALLOW_LIST ++ " ) ] let __assert_struct_result = { use std :: convert :: AsRef as _ ; $0 const __PATTERN_TREE : & " ++ MS ++ " PatternNode = & $1 ; let mut __report = " ++ MS ++ " ErrorReport :: new ( :: std :: env ! ( ""CARGO_MANIFEST_DIR"" ) , :: std :: file ! ( ) , ) ; $2 if ! __report . is_empty ( ) { panic ! ( ""{}"" , __report ) ; } } ; __assert_struct_result }")
       [flat_map pp_node_const nodes; node_ident (pat_id p); assertion].
